@@ -4,14 +4,6 @@ From TV Require Import Lib.GoNum Lib.Res Model.RuneSet Model.Cmap Spec.RuneSet S
 From TV Require Import Proofs.RuneSet Proofs.Cmap Proofs.RuneSetRange.
 From Coq Require Import ZifyBool.
 
-Lemma ranges_ok_cmap4 s : forall lo, wf_cmap4_from lo s = true -> 0 <= lo -> ranges_sorted_from lo (map se4 s) = true.
-Proof.
-  induction s as [|e r IH]; intros lo H Hlo; [reflexivity|].
-  cbn [wf_cmap4_from] in H. apply andb_prop in H as [H H3]. apply andb_prop in H as [H1 H2].
-  pose proof (wf_seg4_prop _ H2) as (P1 & P2 & P3 & _).
-  cbn [map ranges_sorted_from se4]. rewrite IH by (auto; lia). lia.
-Qed.
-
 Lemma rune_ok_int32 x : rune_ok x -> int32_ok x.
 Proof. unfold rune_ok, int32_ok. lia. Qed.
 
@@ -19,10 +11,9 @@ Lemma coverage_exact_cmap4 s : wf_cmap4 s = true ->
   exists rs, coverage_from_ranges (rune_ranges4 s) = Ok rs /\ inv rs /\
              forall x, rune_ok x -> exists b, rsContains rs x = Ok b /\ (b = true <-> exists g, lookup4 s x = Ok (g, true)).
 Proof.
-  intros H. destruct (wf_cmap4_sorted _ _ H) as (Hs & Hwf).
-  assert (R : ranges_ok (rune_ranges4 s) = true).
-  { unfold rune_ranges4. change (fun e : seg4 => (s4_start e, s4_end e)) with se4.
-    rewrite (rune_ranges_sorted se4 0 s Hs). apply ranges_ok_cmap4; auto. lia. }
+  intros H.
+  (* the ranges are the maximal runs of mapped runes of each segment: sorted, disjoint, non-empty, below 2^24 *)
+  pose proof (rune_ranges4_ok s H) as R.
   destruct (coverage_from_ranges_exact _ R) as [rs [E [I C]]].
   exists rs. split; auto. split; auto. intros x Hx. eexists. split; [apply C; auto|].
   apply (rune_ranges4_eq_domain s H x (rune_ok_int32 x Hx)).
